@@ -264,6 +264,7 @@ def adjust_offsets_w_sustain(
 ) -> None:
     # get all note offsets
     offs = np.fromiter((n["note_off"] for n in notes), dtype=float)
+    note_offs = offs.copy()
     first_off = np.min(offs)
     last_off = np.max(offs)
 
@@ -305,14 +306,14 @@ def adjust_offsets_w_sustain(
 
     for pitch in np.unique(pitches):
         pitch_indices = np.where(pitches == pitch)[0]
+        pitch_note_ons = note_ons[pitch_indices]
 
-        sorted_indices = pitch_indices[np.argsort(note_ons[pitch_indices])]
-        sorted_note_ons = note_ons[sorted_indices]
-        sorted_sound_offs = offs[sorted_indices]
-
-        adjusted_sound_offs = np.minimum(sorted_sound_offs[:-1], sorted_note_ons[1:])
-
-        offs[sorted_indices[:-1]] = adjusted_sound_offs
+        for i in pitch_indices:
+            # the next strike of the same pitch at or after the release of this
+            # note (a re-strike while the key is still down does not end it)
+            later = pitch_note_ons[(pitch_note_ons >= note_offs[i]) & (pitch_indices != i)]
+            if len(later) > 0:
+                offs[i] = min(offs[i], later.min())
 
     for offset, note in zip(offs, notes):
         note["sound_off"] = offset
